@@ -10,6 +10,11 @@ import time
 import traceback
 
 from . import common as cm
+
+if hasattr(sys, "set_int_max_str_digits"):
+    # indices of the Pepis-Kalmar pairing and the exact rationals of high moment orders have thousands of digits: the
+    # interpreter's limit on int <-> str conversion would turn a probe's message into a ValueError inside the harness
+    sys.set_int_max_str_digits(0)
 from . import srctie
 from .common import Ctx, Infra
 
